@@ -86,7 +86,7 @@ MInit == [pc |-> "out", act |-> "RUN", inAvail |-> 0, given |-> 0, outSpace |-> 
           seq |-> "HDR", blk |-> 1, pos |-> 0, thr |-> 0, pendingErr |-> "OK", outWasFilled |-> FALSE,
           waitingAllowed |-> FALSE, rwFrom |-> "none", rwInput |-> FALSE, rwWait |-> FALSE, rwRet |-> "OK",
           canStart |-> FALSE, hasBlocked |-> FALSE, loopI |-> 0, nInit |-> 0, dIn |-> 0, dOut |-> 0,
-          orderOk |-> TRUE, copyBad |-> FALSE]
+          orderOk |-> TRUE, copyBad |-> FALSE, space0 |-> 0]
 CInit == [free |-> <<>>, threadErr |-> "OK", outq |-> <<>>, readPos |-> 0, memInUse |-> 0, sigM |-> FALSE]
 TInit == [state |-> "IDLE", inFilled |-> 0, partial |-> "DIS", sig |-> FALSE, pc |-> "none", blk |-> 0,
           inPos |-> 0, outPos |-> 0, snapIn |-> 0, snapPartial |-> "DIS", ret |-> "OK", inBuf |-> "none"]
@@ -106,7 +106,7 @@ Call(a, g, s) ==
     /\ m.pc = "out" /\ ~m.ended
     /\ g <= FileLen - m.given
     /\ (a = "FINISH" => m.given + g = FileLen)
-    /\ m' = [m EXCEPT !.act = a, !.inAvail = m.inAvail + g, !.given = m.given + g, !.outSpace = s,
+    /\ m' = [m EXCEPT !.act = a, !.inAvail = m.inAvail + g, !.given = m.given + g, !.outSpace = s, !.space0 = s,
                       !.progress = FALSE, !.calls = m.calls + 1,
                       !.waitingAllowed = ((a = "FINISH") \/ (m.inAvail + g = 0 /\ ~m.outWasFilled)),
                       !.outWasFilled = FALSE, !.hasBlocked = FALSE, !.pc = "run"]
@@ -225,8 +225,37 @@ AfterRW ==
 
 FailFastTruncated == [m EXCEPT !.rwRet = "DATA_ERROR", !.pc = "stop", !.loopI = 0]
 
-Run ==
-    /\ m.pc = "run"
+\* SEQ_BLOCK_DIRECT_RUN: the single-threaded Block decoder called by the main thread.
+\* r = [ip, op, ret]: new positions inside the Block and the Block decoder's verdict ("OK" | "END" | "ERR")
+DirectRunTo(r) ==
+    /\ m.pc = "run" /\ m.seq = "DIRECTRUN"
+    /\ r.ip >= m.dIn /\ r.ip - m.dIn <= m.inAvail /\ r.op >= m.dOut /\ r.op - m.dOut <= m.outSpace
+    /\ LET produce == r.op - m.dOut
+           m1 == [m EXCEPT !.inAvail = m.inAvail - (r.ip - m.dIn), !.dIn = r.ip, !.dOut = r.op,
+                           !.outSpace = m.outSpace - produce, !.delivered = m.delivered + produce,
+                           !.orderOk = (m.orderOk /\ (produce = 0 \/ OutBase[m.blk] + m.dOut = m.delivered)),
+                           !.progress = (m.progress \/ produce > 0 \/ r.ip > m.dIn)]
+       IN m' = CASE r.ret = "ERR" -> Ret(m1, "DATA_ERROR")
+                 [] r.ret = "END" -> [m1 EXCEPT !.seq = "BLKHDR", !.blk = m.blk + 1]
+                 [] OTHER -> Ret(m1, "OK")
+    /\ UNCHANGED <<c, t>>
+
+\* model checking: a deterministic Block decoder that stops when the output space runs out
+DirectStep ==
+    LET B == Blocks[m.blk]
+        tgtIn == Min(B.insz, m.dIn + m.inAvail)
+        hitErr == B.errAt > 0 /\ B.errAt > m.dIn /\ B.errAt <= tgtIn
+        safeIn == IF hitErr THEN B.errAt - 1 ELSE tgtIn     \* consumable without reporting the error
+        wantOut == OutAfter(m.blk, safeIn)
+        produce == Min(wantOut - m.dOut, m.outSpace)
+        blocked == produce < wantOut - m.dOut          \* output space ran out first
+    IN [ip |-> IF ~blocked /\ hitErr THEN B.errAt ELSE safeIn, op |-> m.dOut + produce,
+        ret |-> IF ~blocked /\ hitErr THEN "ERR" ELSE IF ~blocked /\ safeIn = B.insz THEN "END" ELSE "OK"]
+
+DirectRun == DirectRunTo(DirectStep)
+
+RunOther ==
+    /\ m.pc = "run" /\ m.seq # "DIRECTRUN"
     /\ UNCHANGED <<c, t>>
     /\ m' =
        CASE m.seq = "HDR" ->
@@ -256,23 +285,6 @@ Run ==
               THEN FailFastTruncated
               ELSE [m EXCEPT !.pc = "copy"]
          [] m.seq = "DIRECTINIT" -> StartRW(m, "DIRECTINIT", FALSE, TRUE)
-         [] m.seq = "DIRECTRUN" ->
-              \* single-threaded Block decoder called directly: consumes what it can, limited by output space
-              LET B == Blocks[m.blk]
-                  tgtIn == Min(B.insz, m.dIn + m.inAvail)
-                  hitErr == B.errAt > 0 /\ B.errAt > m.dIn /\ B.errAt <= tgtIn
-                  safeIn == IF hitErr THEN B.errAt - 1 ELSE tgtIn     \* consumable without reporting the error
-                  wantOut == OutAfter(m.blk, safeIn)
-                  produce == Min(wantOut - m.dOut, m.outSpace)
-                  blocked == produce < wantOut - m.dOut          \* output space ran out first
-                  stopIn == IF ~blocked /\ hitErr THEN B.errAt ELSE safeIn
-                  m1 == [m EXCEPT !.inAvail = m.inAvail - (stopIn - m.dIn), !.dIn = stopIn, !.dOut = m.dOut + produce,
-                                  !.outSpace = m.outSpace - produce, !.delivered = m.delivered + produce,
-                                  !.orderOk = (m.orderOk /\ (produce = 0 \/ OutBase[m.blk] + m.dOut = m.delivered)),
-                                  !.progress = (m.progress \/ produce > 0 \/ stopIn > m.dIn)]
-              IN IF ~blocked /\ hitErr THEN Ret(m1, "DATA_ERROR")
-                 ELSE IF ~blocked /\ stopIn = B.insz THEN [m1 EXCEPT !.seq = "BLKHDR", !.blk = m.blk + 1]
-                 ELSE Ret(m1, "OK")
          [] m.seq = "IDXWAIT" -> StartRW(m, "IDXWAIT", FALSE, TRUE)
          [] m.seq = "IDX" ->
               LET n == Min(m.inAvail, TailSz - m.pos)
@@ -282,22 +294,36 @@ Run ==
          [] m.seq = "ERROR" ->
               IF FailFast THEN Ret(m, PendingCode) ELSE StartRW(m, "ERROR", FALSE, TRUE)
 
-\* SEQ_BLOCK_THR_INIT after read_output_and_wait said the Block can start:
-\* get_thread() (coder.mutex) + reset of the thread's fields + Block decoder init + in buffer + outq buffer
+Run == RunOther \/ DirectRun
+
+\* SEQ_BLOCK_THR_INIT after read_output_and_wait said the Block can start.
+\* coder.mutex sections of stream_decode_mt (memory accounting) and get_thread (pop the free stack)
 TiGet ==
     /\ m.pc = "tiget"
-    /\ LET reuse == c.free # <<>>
-           w == IF reuse THEN c.free[1] ELSE m.nInit + 1
-       IN
-       /\ m' = [m EXCEPT !.thr = w, !.nInit = IF reuse THEN m.nInit ELSE m.nInit + 1, !.pc = "tistart"]
-       /\ c' = [c EXCEPT !.free = IF reuse THEN Tail(c.free) ELSE c.free,
-                         !.memInUse = c.memInUse + Blocks[m.blk].mem,
-                         !.outq = Append(c.outq, [b |-> m.blk, w |-> w, pos |-> 0, dip |-> 0, fin |-> FALSE,
+    /\ IF c.free # <<>>
+       THEN /\ m' = [m EXCEPT !.thr = c.free[1], !.pc = "tisetup"]
+            /\ c' = [c EXCEPT !.free = Tail(c.free), !.memInUse = c.memInUse + Blocks[m.blk].mem]
+       ELSE /\ m' = [m EXCEPT !.pc = "ticreate"]
+            /\ c' = [c EXCEPT !.memInUse = c.memInUse + Blocks[m.blk].mem]
+    /\ UNCHANGED t
+
+\* initialize_new_thread(): mythread_create; the new worker starts at the top of worker_decoder()
+TiCreate ==
+    /\ m.pc = "ticreate"
+    /\ LET w == m.nInit + 1 IN
+       /\ m' = [m EXCEPT !.thr = w, !.nInit = w, !.pc = "tisetup"]
+       /\ t' = [t EXCEPT ![w] = [TInit EXCEPT !.pc = "check"]]
+    /\ UNCHANGED c
+
+\* no lock: reset the thread's fields, Block decoder init, allocate thr->in, lzma_outq_get_buf
+TiSetup ==
+    /\ m.pc = "tisetup"
+    /\ LET w == m.thr IN
+       /\ m' = [m EXCEPT !.pc = "tistart"]
+       /\ c' = [c EXCEPT !.outq = Append(c.outq, [b |-> m.blk, w |-> w, pos |-> 0, dip |-> 0, fin |-> FALSE,
                                                   ret |-> "END", partialW |-> w])]
-       /\ t' = [t EXCEPT ![w] = [@ EXCEPT !.pc = IF reuse THEN @ ELSE "check",      \* mythread_create
-                                          !.state = IF reuse THEN @ ELSE "IDLE", !.sig = IF reuse THEN @ ELSE FALSE,
-                                          !.inFilled = 0, !.inPos = 0, !.outPos = 0, !.partial = "DIS",
-                                          !.blk = m.blk, !.inBuf = "alloc"]]
+       /\ t' = [t EXCEPT ![w] = [@ EXCEPT !.inFilled = 0, !.inPos = 0, !.outPos = 0, !.partial = "DIS",
+                                          !.blk = m.blk, !.inBuf = "alloc", !.ret = "OK"]]
 
 \* thr.mutex: state := RUN, signal
 TiStart ==
@@ -431,7 +457,7 @@ WFinCoder(w) ==
 
 Worker(w) == WCheck(w) \/ WWake(w) \/ WDecode(w) \/ WPublish(w) \/ WFinThr(w) \/ WFreeIn(w) \/ WFinCoder(w)
 
-Main == RWBody \/ RWWake \/ RWTimeout \/ StopStep \/ AfterRW \/ Run \/ TiGet \/ TiStart \/ TiPartial \/ Copy \/ Publish
+Main == RWBody \/ RWWake \/ RWTimeout \/ StopStep \/ AfterRW \/ Run \/ TiGet \/ TiCreate \/ TiSetup \/ TiStart \/ TiPartial \/ Copy \/ Publish
         \/ EndSignal \/ EndJoin
 
 App == \/ \E a \in {"RUN", "FINISH"}, g \in Gives, s \in Spaces : Call(a, Min(g, FileLen - m.given), s)
